@@ -35,17 +35,28 @@ EXTENDS Integers, Sequences, FiniteSets, TLC, Json
 
 CONSTANTS Files,       \* source ids, e.g. 1..3
           Size,        \* Size[f]: length of the restored file
-          MaxCalls, Variant, EmitHist
-VARIABLES dfiles, results, arrays, buf, top, hist
-vars == <<dfiles, results, arrays, buf, top, hist>>
+          MaxCalls, Variant, EmitHist,
+          CanRefuse    \* the Decorator has a resolver, which can refuse a file (dot-import ...)
+VARIABLES dfiles, results, arrays, buf, top, hist, mapped
+vars == <<dfiles, results, arrays, buf, top, hist, mapped>>
 
-Init == dfiles = <<>> /\ results = <<>> /\ arrays = <<>> /\ buf = 0 /\ top = 1 /\ hist = <<>>
+\* mapped: the decorated files (indices into dfiles) the Decorator's node maps still describe
+Init == dfiles = <<>> /\ results = <<>> /\ arrays = <<>> /\ buf = 0 /\ top = 1 /\ hist = <<>> /\ mapped = {}
 
 Decorate(f) ==
   /\ Len(hist) < MaxCalls
   /\ dfiles' = Append(dfiles, f)
+  /\ mapped' = mapped \cup {Len(dfiles) + 1}
   /\ hist' = Append(hist, [op |-> "decorate", a |-> f, via |-> ""])
   /\ UNCHANGED <<results, arrays, buf, top>>
+
+\* a decoration the resolver refuses: an error, and the maps keep describing the files decorated before
+\* (variant "resetOnRefusal": the maps are emptied to get rid of the half-built entries)
+Refuse ==
+  /\ CanRefuse /\ Len(hist) < MaxCalls
+  /\ mapped' = IF Variant = "resetOnRefusal" THEN {} ELSE mapped
+  /\ hist' = Append(hist, [op |-> "refuse", a |-> 0, via |-> ""])
+  /\ UNCHANGED <<dfiles, results, arrays, buf, top>>
 
 Restore(i, via) ==
   /\ Len(hist) < MaxCalls /\ i \in DOMAIN dfiles
@@ -59,14 +70,14 @@ Restore(i, via) ==
         /\ buf' = IF via = "fr" THEN a ELSE buf
         /\ top' = lo + Size[f] + 1
   /\ hist' = Append(hist, [op |-> "restore", a |-> i, via |-> via])
-  /\ UNCHANGED dfiles
+  /\ UNCHANGED <<dfiles, mapped>>
 
 PrintResult(k) ==
   /\ Len(hist) < MaxCalls /\ k \in DOMAIN results
   /\ hist' = Append(hist, [op |-> "print", a |-> k, via |-> ""])
-  /\ UNCHANGED <<dfiles, results, arrays, buf, top>>
+  /\ UNCHANGED <<dfiles, results, arrays, buf, top, mapped>>
 
-Next == (\E f \in Files : Decorate(f)) \/ (\E i \in 1..MaxCalls, via \in {"fr", "r"} : Restore(i, via)) \/ (\E k \in 1..MaxCalls : PrintResult(k))
+Next == Refuse \/ (\E f \in Files : Decorate(f)) \/ (\E i \in 1..MaxCalls, via \in {"fr", "r"} : Restore(i, via)) \/ (\E k \in 1..MaxCalls : PrintResult(k))
 Spec == Init /\ [][Next]_vars
 
 -----------------------------------------------------------------------------
@@ -77,7 +88,10 @@ Unshared == \A j, k \in DOMAIN results : j # k => results[j].arr # results[k].ar
 \* the position ranges of the restored files are disjoint and ascending
 Disjoint == \A j, k \in DOMAIN results : j < k => results[j].hi < results[k].lo
 
+\* the Decorator's maps describe every file it has decorated
+MapsKept == mapped = DOMAIN dfiles
+
 \* behaviours worth replaying: at least one restore, and the last call is a print
 Emit == (EmitHist /\ Len(hist) = MaxCalls /\ results # <<>> /\ hist[Len(hist)].op = "print") => PrintT("BEH " \o ToJson([hist |-> hist]))
-View == <<dfiles, results, arrays, buf, top, IF EmitHist THEN hist ELSE Len(hist)>>
+View == <<dfiles, results, arrays, buf, top, mapped, IF EmitHist THEN hist ELSE Len(hist)>>
 =============================================================================
